@@ -411,6 +411,30 @@ func atLeastOne(v ssa.Value) bool {
 	if c, ok := core.ConstInt(v); ok {
 		return c >= 1
 	}
+	// the count comes from a helper of the repo (func numShards() int): every value it returns is at least 1
+	if call, ok := v.(*ssa.Call); ok {
+		callee := call.Call.StaticCallee()
+		if callee == nil || callee.Blocks == nil || callee.Pkg == nil || !strings.HasPrefix(callee.Pkg.Pkg.Path(), core.Module) {
+			return false
+		}
+		all, any := true, false
+		core.EachInstr(callee, func(b *ssa.BasicBlock, _ int, ins ssa.Instruction) {
+			ret, ok := ins.(*ssa.Return)
+			if !ok || b == callee.Recover {
+				return
+			}
+			rs := core.RetResults(ret)
+			if len(rs) != 1 {
+				all = false
+				return
+			}
+			any = true
+			if !atLeastOne(rs[0]) && !atLeastOneAt(callee, rs[0], b) {
+				all = false
+			}
+		})
+		return all && any
+	}
 	phi, ok := v.(*ssa.Phi)
 	if !ok {
 		return false
@@ -448,6 +472,35 @@ func atLeastOne(v ssa.Value) bool {
 		}
 	}
 	return okAll
+}
+
+// atLeastOneAt: block at lies on a branch of fn on which v >= 1 was established (the false branch of v < 1, ...).
+func atLeastOneAt(fn *ssa.Function, v ssa.Value, at *ssa.BasicBlock) bool {
+	for _, b := range fn.Blocks {
+		iff := core.IfOf(b)
+		if iff == nil {
+			continue
+		}
+		bo, ok := iff.Cond.(*ssa.BinOp)
+		if !ok || bo.X != v {
+			continue
+		}
+		c, isC := core.ConstInt(bo.Y)
+		if !isC {
+			continue
+		}
+		succ := -1
+		switch {
+		case bo.Op == token.LSS && c == 1, bo.Op == token.LEQ && c == 0:
+			succ = 1
+		case bo.Op == token.GEQ && c == 1, bo.Op == token.GTR && c == 0:
+			succ = 0
+		}
+		if succ >= 0 && core.BranchDominates(b, succ, at) {
+			return true
+		}
+	}
+	return false
 }
 
 // reachesCoalesce follows the constructed operator through interface conversion, NewConcurrent and
